@@ -400,6 +400,9 @@ Proof.
   assert (Hms : -1 <= m - 1 < 2147483648) by (unfold small in Hm; lia).
   assert (Hes : -1 <= e - 1 < 2147483648) by (unfold small in He; lia).
   assert (H0s : small 0 = true) by reflexivity.
+  assert (Hmax1 : 1 <= m -> Z.max 0 (m - 1) = m - 1) by (clear; lia).
+  assert (Hmax2 : 1 <= m -> Z.max 0 (Z.lor 1 (m - 1)) = Z.lor 1 (m - 1)).
+  { clear. intros H. assert (0 <= Z.lor 1 (m - 1)) by (apply Z.lor_nonneg; lia). lia. }
   rewrite <- special_code_exact.
   destruct C0 as [-> | [-> | ->]]; destruct C1 as [-> | [-> | ->]]; destruct tx as [tx|];
     cbn [Z.eqb Pos.eqb Z.leb Z.compare Pos.compare Pos.compare_cont];
@@ -410,7 +413,7 @@ Proof.
   all: destruct ((n =? 1) && (fin =? 90)) eqn:Ebt; cbn [k_mods k_text k_code k_shifted k_base k_event key0].
   all: try (destruct (Hbt eq_refl) as [Hb0 Hb1]).
   all: try (specialize (Hb0 eq_refl); discriminate).
-  all: try (assert (Hm1 : 1 <= m) by (apply Hb1; lia)).
+  all: try (assert (Hm1 : 1 <= m) by (apply Hb1; clear; lia)).
   all: try rewrite p2_text;
        cbn [k_mods k_text k_code k_shifted k_base k_event app];
        try (apply Htx; reflexivity).
@@ -419,8 +422,7 @@ Proof.
             destruct ((special_code n fin =? 27) && (fin =? 126)) eqn:E27; [|reflexivity];
             apply andb_true_iff in E27 as [Ec Ef]; apply Z.eqb_eq in Ec, Ef; subst fin;
             apply special_27_tilde in Ec; subst n; specialize (H27 _ _ eq_refl); discriminate).
-  all: try (assert (Hl : 0 <= Z.lor 1 (m - 1)) by (apply Z.lor_nonneg; lia);
-            rewrite (Z.max_r 0 (m - 1)) by lia; rewrite (Z.max_r 0 (Z.lor 1 (m - 1))) by lia).
+  all: try (rewrite (Hmax1 Hm1), (Hmax2 Hm1)).
   all: try reflexivity.
 Qed.
 
@@ -442,6 +444,7 @@ Proof.
 Qed.
 
 End Decode.
+
 
 (* ---------- cross-protocol ---------- *)
 Definition ascii_like (u : uni) : Prop :=
@@ -486,8 +489,39 @@ Definition norm_key (k : key) : key :=
         (k_code k) (k_shifted k)
         (if (k_base k =? 0) || (k_base k =? k_code k) then 0 else k_base k) 0 0.
 
-Lemma cross_all_ok_true : cross_all_ok = true.
+Lemma cross_all_ok_true : forallb cross_chord_ok both_expressible = true.
 Proof. vm_compute. reflexivity. Qed.
+
+Lemma existsb_In {A} (eqb : A -> A -> bool) (x : A) l :
+  (forall y, eqb x y = true -> x = y) -> existsb (eqb x) l = true -> In x l.
+Proof.
+  intros He H. apply existsb_exists in H as [y [Hin Hy]]. apply He in Hy. now subst.
+Qed.
+
+Lemma chord_eqb_eq a b : chord_eqb a b = true -> a = b.
+Proof.
+  destruct a, b. unfold chord_eqb. cbn. intros H. apply andb_true_iff in H as [H1 H2].
+  apply Z.eqb_eq in H1, H2. now subst.
+Qed.
+
+Lemma zlist_list_eqb_eq a b : zlist_list_eqb a b = true -> a = b.
+Proof.
+  revert b. induction a as [|x a IH]; intros [|y b]; cbn; try discriminate; auto.
+  intros H. apply andb_true_iff in H as [Hx Hr]. apply zlist_eqb_eq in Hx. subst. f_equal. auto.
+Qed.
+
+Lemma kseq_eqb_eq a b : kseq_eqb a b = true -> a = b.
+Proof.
+  destruct a, b; cbn; try discriminate; intros H;
+    repeat (apply andb_true_iff in H; destruct H as [H ?H]);
+    repeat match goal with
+           | H : zlist_eqb _ _ = true |- _ => apply zlist_eqb_eq in H
+           | H : zlist_list_eqb _ _ = true |- _ => apply zlist_list_eqb_eq in H
+           | H : (_ =? _) = true |- _ => apply Z.eqb_eq in H
+           end; subst; reflexivity.
+Qed.
+
+Local Opaque both_expressible.
 
 Section Cross.
 Variable u : uni.
@@ -579,10 +613,12 @@ Lemma cross_protocol c sl sk :
   key_string u (decode_key u sl) = key_string u (decode_key u sk) /\
   forall r mods, r <> 0 -> matches u (decode_key u sl) r mods = matches u (decode_key u sk) r mods.
 Proof.
-  intros Hc Hl Hk Hg. pose proof cross_all_ok_true as H. unfold cross_all_ok in H.
-  rewrite forallb_forall in H. specialize (H c Hc).
-  rewrite forallb_forall in H. specialize (H sl Hl).
-  rewrite forallb_forall in H. specialize (H sk Hk).
+  intros Hc Hl Hk Hg.
+  assert (H : cross_pair_ok c sl sk = true).
+  { pose proof (proj1 (forallb_forall cross_chord_ok both_expressible) cross_all_ok_true c Hc) as H1.
+    unfold cross_chord_ok in H1.
+    pose proof (proj1 (forallb_forall _ _) H1 sl Hl) as H2. cbv beta in H2.
+    exact (proj1 (forallb_forall _ _) H2 sk Hk). }
   unfold cross_pair_ok in H. rewrite Hg in H. cbn [negb orb] in H.
   apply andb_true_iff in H as [Hd H]. apply andb_true_iff in Hd as [Hdl Hdk].
   apply andb_true_iff in H as [Hs Hm].
@@ -605,3 +641,32 @@ Proof.
   - destruct (in_range r 65 90); destruct (in_range r 32 126); cbn; discriminate.
 Qed.
 
+
+(* the two recorded findings are real: witnesses inside both_expressible *)
+Lemma cross_esc_upper_refuted :
+  let c := mkChord 97 3 in let sl := SESC [] 65 in let sk := SCSI [] [[97; 65]; [4]] 117 in
+  In c both_expressible /\ In sl (legacy_encs c) /\ In sk (kitty_encs c) /\ guard_esc_upper c = true /\
+  key_string ascii_uni (decode_key ascii_uni sl) = [65; 108; 116; 43; 65] /\
+  key_string ascii_uni (decode_key ascii_uni sk) = [65; 108; 116; 43; 83; 104; 105; 102; 116; 43; 97] /\
+  matches ascii_uni (decode_key ascii_uni sl) 97 3 = false /\
+  matches ascii_uni (decode_key ascii_uni sk) 97 3 = true.
+Proof.
+  cbv zeta. split; [|split; [|split]].
+  - apply (existsb_In chord_eqb); [apply chord_eqb_eq|]. vm_compute. reflexivity.
+  - apply (existsb_In kseq_eqb); [apply kseq_eqb_eq|]. vm_compute. reflexivity.
+  - apply (existsb_In kseq_eqb); [apply kseq_eqb_eq|]. vm_compute. reflexivity.
+  - vm_compute. repeat split; reflexivity.
+Qed.
+
+Lemma cross_shift_noalt_refuted :
+  let c := mkChord 97 1 in let sl := SPrint [65] in let sk := SCSI [] [[97]; [2]] 117 in
+  In c both_expressible /\ In sl (legacy_encs c) /\ In sk (kitty_encs c) /\ guard_shift_noalt c sk = true /\
+  matches ascii_uni (decode_key ascii_uni sl) 65 0 = true /\
+  matches ascii_uni (decode_key ascii_uni sk) 65 0 = false.
+Proof.
+  cbv zeta. split; [|split; [|split]].
+  - apply (existsb_In chord_eqb); [apply chord_eqb_eq|]. vm_compute. reflexivity.
+  - apply (existsb_In kseq_eqb); [apply kseq_eqb_eq|]. vm_compute. reflexivity.
+  - apply (existsb_In kseq_eqb); [apply kseq_eqb_eq|]. vm_compute. reflexivity.
+  - vm_compute. repeat split; reflexivity.
+Qed.
